@@ -27,7 +27,8 @@ func timedCase(c *vlib.Ctx, kind int, i int, r *vlib.Rand) {
 	var step atomic.Value
 	step.Store("start")
 	var gaveUp int32
-	o := guardCall(curWatchdog()+time.Second, func() { timedBody(c, kind, section, caseID, r, &step, &gaveUp) })
+	wd := curWatchdog() + time.Second
+	o := guardCall(wd, func() { timedBody(c, kind, section, caseID, r, &step, &gaveUp) })
 	o.rethrow()
 	if o.Runaway {
 		c.Fail([]string{"RequestQueue", "RequestDoubleQueue"}[kind]+".PutForce:eviction-runaway", "Overflowed was invoked more than 64 times in a case that puts at most 4 elements", map[string]interface{}{"case": caseID, "step": step.Load()})
@@ -37,7 +38,7 @@ func timedCase(c *vlib.Ctx, kind int, i int, r *vlib.Rand) {
 	if !o.Returned {
 		atomic.StoreInt32(&gaveUp, 1)
 		atomic.AddInt32(&stallsSeen, 1)
-		c.Inconclusive(caseID, fmt.Sprintf("library call did not return within the watchdog %v (at: %v); goroutine abandoned", watchdog, step.Load()))
+		c.Inconclusive(caseID, fmt.Sprintf("library call did not return within the watchdog %v (at: %v); goroutine abandoned", wd, step.Load()))
 		abandonSection(c, section, fmt.Sprintf("%s: call did not return (at: %v)", caseID, step.Load()))
 	}
 }
